@@ -289,7 +289,7 @@ class World:
                 self.frame_check(ex, c, f, snap)
                 # vacuity probe: "this normal path is infeasible" must NOT be provable for at least one
                 # normal path of the function (infeasible paths the pruning solver could not see are fine)
-                if stats.get("probes", 0) < 3:
+                if stats.get("probes", 0) < getattr(c, "max_probes", 3):
                     stats["probes"] = stats.get("probes", 0) + 1
                     ex.oblige("vacuity probe: path condition of a normal path is satisfiable", False, kind="probe")
             else:
